@@ -14,6 +14,8 @@ Inductive outc := OVals (re im : list Q) | ONonFinite | OTypeErr | OValueErr | O
 Record case := {
   k_kind : ikind; k_ss : list scheme; k_cvs : list (list Q); k_dt : vdtype; k_cplx : bool;
   k_vre : list Q; k_vim : list Q; k_inp : inp;
+  (* out= argument, if given: its shape and whether its dtype equals the values' dtype *)
+  k_outarg : option (list nat * bool);
   (* measured variants of the two recorded defects (true = defect present) *)
   k_int_raises : bool;      (* per-axis evaluation on integer values raises *)
   k_mesh1_raises : bool;    (* mesh grid with exactly one point along the first axis raises *)
@@ -52,8 +54,25 @@ Definition has_linear (ss : list scheme) : bool :=
 (* integer / string values: only index-based evaluation is defined.  The per-axis evaluator
    does arithmetic on the values (TypeError) -- for all-'nearest' schemes that is the recorded
    defect [k_int_raises]; once repaired, all-'nearest' per-axis evaluation returns node values. *)
+(* _check_interp_input / _Interpolator.__call__ reject (ValueError): points whose dimension is not
+   the grid dimension, and an out array of the wrong shape or dtype *)
+Definition out_shape (i : inp) : list nat :=
+  match i with IPoints pts => [length pts] | IMesh m => map (@length Q) m end.
+Definition nats_eqb (a b : list nat) : bool := all2 Nat.eqb a b.
+Definition malformed (k : case) : bool :=
+  let d := length (k_cvs k) in
+  (match k_inp k with
+   | IPoints pts => existsb (fun p => negb (length p =? d)%nat) pts
+   | IMesh m => negb (length m =? d)%nat
+   end)
+  || match k_outarg k with
+     | Some (sh, dt_ok) => negb (nats_eqb sh (out_shape (k_inp k))) || negb dt_ok
+     | None => false
+     end.
+
 Definition expected (k : case) : outc :=
-  if k_mesh1_raises k && mesh1 (k_inp k) then OValueErr
+  if malformed k then OValueErr
+  else if k_mesh1_raises k && mesh1 (k_inp k) then OValueErr
   else match k_kind k, k_dt k with
   | KNearest, _ => OVals (run k (k_vre k)) (if k_cplx k then run k (k_vim k) else [])
   | _, DInt | _, DStr =>
